@@ -1,5 +1,5 @@
 #!/usr/bin/env python3
-"""prints DESIGN.md section 10.8: obligations per property from lean/props.json"""
+"""prints DESIGN.md section 10.9: obligations per property from lean/props.json"""
 import json
 P = json.load(open("/verif/lean/props.json"))
 for pid in sorted(P):
